@@ -41,9 +41,9 @@ def check(run, replay=None):
                 "lists, junctions with negative and zero base demands, multi-category demands; non-trivial = fraction strictly inside "
                 "(0,1) / at least one junction removed")
     run.trusted += ["harness tools/props/c19.py (element dictionaries compared in Python for the frame condition; demand entries tracked by object identity)"]
-    run.assumptions += ["pipes with vertices are not generated (coordinates interpolate between the end nodes)",
+    run.assumptions += ["pipes with vertices: axis-parallel polylines only (rational lengths), the statement itself is evaluated on the returned polylines",
                         "the merged-pipe properties (equivalent roughness/diameter) of skeletonization are not part of the property"]
-    ok, log, fails = common.coq_make(["theories/C19/Proofs.vo"])
+    ok, log, fails = common.coq_make(["theories/C19/Proofs.vo", "theories/C19/Poly.vo"])
     if not ok:
         for f, ln, msg in fails:
             run.tie_broken("proof no longer checks: %s line %s: %s" % (f, ln, common.theorem_line(f, ln)), msg)
@@ -223,6 +223,39 @@ def check(run, replay=None):
                     run.violation("skeletonize_total_demand", "total demand at t=%d changed from %.6g to %.6g" % (t, a, b), input=desc)
                     break
             run.count("junctions_removed", len(removed))
+    # ---------------- pipes drawn with vertices (axis-parallel polylines: rational lengths) ---------------------------------------------
+    for k in range(60 if thorough else 16):
+        wnv = wntr.network.WaterNetworkModel()
+        pts = [(float(rng.randrange(0, 20)) / 2, float(rng.randrange(0, 20)) / 2)]
+        for _ in range(rng.randint(2, 5)):
+            x, y = pts[-1]
+            stepv = rng.choice([0.5, 1.0, 2.5, 4.0]) * rng.choice([1, -1])
+            pts.append((x + stepv, y) if rng.random() < 0.5 else (x, y + stepv))
+        wnv.add_reservoir("R", base_head=50.0, coordinates=pts[0])
+        wnv.add_junction("J", base_demand=0.01, elevation=3.0, coordinates=pts[-1])
+        wnv.add_pipe("P", "R", "J", length=round(rng.uniform(50, 900), 1), diameter=0.3, roughness=100)
+        wnv.get_link("P").vertices = list(pts[1:-1])
+        f = rng.choice([0.5, round(rng.uniform(0.02, 0.98), 3), round(rng.uniform(0.02, 0.98), 3), round(rng.uniform(0.02, 0.3), 3)])
+        at_end, mode = rng.random() < 0.5, rng.choice(["split", "break"])
+        desc = {"polyline": pts, "fraction": f, "add_pipe_at_end": at_end, "mode": mode}
+        try:
+            with warnings.catch_warnings():
+                warnings.simplefilter("ignore")
+                if mode == "split":
+                    w2 = wntr.morph.split_pipe(wnv, "P", "NEWP", "NEWJ", add_pipe_at_end=at_end, split_at_point=f)
+                else:
+                    w2 = wntr.morph.break_pipe(wnv, "P", "NEWP", "NEWJ1", "NEWJ2", add_pipe_at_end=at_end, split_at_point=f)
+        except Exception as e:
+            run.violation("split_raises", "%s_pipe of a pipe with vertices raised %s: %s" % (mode, type(e).__name__, e), input=desc)
+            continue
+        old, new = w2.get_link("P"), w2.get_link("NEWP")
+        first, second = (old, new) if at_end else (new, old)
+
+        def poly(pp):
+            return [tuple(pp.start_node.coordinates)] + [tuple(v) for v in pp.vertices] + [tuple(pp.end_node.coordinates)]
+        cq = lambda ps: "[" + "; ".join("(%s, %s)" % (Q(float(a)), Q(float(b))) for a, b in ps) + "]"
+        add("poly_split_ok %s %s %s %s tolq = true" % (cq(pts), cq(poly(first)), cq(poly(second)), Q(f)),
+            dict(desc, check="split of a pipe with vertices", part1=poly(first), part2=poly(second)), True)
     res, errors = common.run_prop_cases("C19", HEADER, TACTIC, cases, shard=150)
     for e in errors:
         run.tie_broken("correspondence case file failed to compile", e)
